@@ -91,6 +91,25 @@ def _oracle(case, r):
         mode, bs = t[0][1], t[0][2]
         per = _branches_alone(case['kind'], bs, case['items'])
         if per is None:
+            # some branch run alone ends with on_error (a user function raises in it): the tee_map of the branches must end with
+            # on_error while the same source item is processed — an error of a branch is never swallowed by the join
+            if r.get('raised'):
+                return None
+            runner = muxreal.run_mux if case['kind'] == 'mux' else muxreal.run_plain
+            steps = []
+            for b in bs:
+                rb = muxprop.quiet(runner, b, case['items']) if case['kind'] == 'plain' else muxprop.quiet(runner, b, case['items'], False)
+                if rb.get('raised'):
+                    return None
+                ch = muxreal.trunc_chunks(rb['chunks'])
+                steps += [i for i, c in enumerate(ch) if any('x' in o for o in c)][:1]
+            if not steps:
+                return None
+            got = [i for i, c in enumerate(r['chunks']) if any('x' in o for o in c)][:1]
+            if got != [min(steps)]:
+                return ('tee_map(join=%s) of %s over %s: a branch run alone ends with on_error at step %d; the tee_map %s'
+                        % (mode, muxprop.json.dumps(bs)[:300], case['items'], min(steps) - 1,
+                           ('ends with on_error at step %d' % (got[0] - 1)) if got else 'does not signal an error: ' + str(r['chunks'])[:200]))
             return None
         if r.get('raised') or muxprop.has_fatal(r['chunks']):
             return ('tee_map(join=%s) of %s over %s fails (%s) although every branch run alone on the same input completes normally'
